@@ -820,6 +820,38 @@ where
     run_input_output(cmd, None).await
 }
 
+/// Verification hook: the argument vector `preprocess_cmd` builds, recorded
+/// with a `MockCommand` (nothing is spawned).
+#[cfg(sccache_verif)]
+pub fn verif_preprocess_args(
+    parsed_args: &ParsedArguments,
+    kind: CCompilerKind,
+    may_dist: bool,
+    rewrite_includes_only: bool,
+    ignorable_whitespace_flags: Vec<String>,
+) -> Vec<OsString> {
+    let mut cmd = crate::mock_command::MockCommand {
+        child: None,
+        args: vec![],
+    };
+    let language_to_arg: fn(Language) -> Option<&'static str> = match kind {
+        CCompilerKind::Clang => clang::language_to_clang_arg,
+        _ => language_to_gcc_arg,
+    };
+    preprocess_cmd(
+        &mut cmd,
+        parsed_args,
+        Path::new(""),
+        &[],
+        may_dist,
+        kind,
+        rewrite_includes_only,
+        ignorable_whitespace_flags,
+        language_to_arg,
+    );
+    cmd.args
+}
+
 #[allow(clippy::too_many_arguments)]
 pub fn generate_compile_commands<F>(
     path_transformer: &mut dist::PathTransformer,
